@@ -13,6 +13,7 @@ const usage = `usage: gr <command> [flags]
 
 commands:
   table    -out <json> [-lean <file.lean>] [-runs 3] [-maxruns N] [-j 16] [-dev=true] [-rows list]
+  pairs    -out <json> [-lean <file.lean>] [-first 8] [-control 8] [-j 16] [-timeout 10s]
   compile  -out <json> [-rows <list|all-ok|sample:N:SEED>] [-services N -seed S] [-j 16]
   stubs    -out <json> [-j 16]
   regen    -dir <outdir>
@@ -32,6 +33,8 @@ func main() {
 	switch os.Args[1] {
 	case "table":
 		code = cmdTable(os.Args[2:])
+	case "pairs":
+		code = cmdPairs(os.Args[2:])
 	case "compile":
 		code = cmdCompile(os.Args[2:])
 	case "stubs":
